@@ -4,6 +4,7 @@ From Coq Require Import Strings.String List ZArith NArith.
 From RV Require Import Irc.Str Irc.State Irc.Cmds Irc.Apply.
 From RV Require Import IrcProofs.Inv IrcProofs.InvPrims IrcProofs.Top IrcProofs.Outputs IrcProofs.Misc.
 From RV Require Import IrcProofs.Recipients2 IrcProofs.Recipients3.
+From RV Require Api.Auth Api.Post Api.PostProofs.
 Local Open Scope string_scope.
 
 Theorem C17_nosuch_sound : forall sv id,
@@ -54,3 +55,14 @@ Theorem C17_ended_receives_nothing : forall e net id es0 es1 en es2 sv svj sv' o
   forall o, In o out -> ~ In id (o_rcpt o).
 Proof. exact ended_session_silent_from_init. Qed.
 Print Assumptions C17_ended_receives_nothing.
+
+(* the same at the HTTP layer (api.session, Api/Auth.v session_check), for a handler that answers from the replay of any
+   strict prefix of the log: the id of an entry still ahead of it — a session whose CreateSession is committed but not yet
+   applied on this node — is never answered with "No such session" (seeded change C17a-e3: LastIndex of the LOG used instead
+   of the applied state).  Ids are raft indexes. *)
+Theorem C17_lagging_handler_not_gone : forall st0 b l1 e o l2 hdr t,
+  (RV.Api.Auth.st_lastproc st0 <= b)%N -> RV.Api.PostProofs.ids_increase b (l1 ++ (e, o) :: l2) ->
+  RV.Api.Auth.parse_uint0 t = Some (RV.Api.Post.e_id e) ->
+  RV.Api.Auth.session_check (RV.Api.Post.replay l1 st0) hdr t <> inr RV.Api.Auth.RNoSuch.
+Proof. exact RV.Api.PostProofs.lagging_check_not_gone. Qed.
+Print Assumptions C17_lagging_handler_not_gone.
